@@ -767,6 +767,99 @@ func (c *Ctx) replyPerRequest() {
 		}
 	}
 	R.Require("E5.reply-per-request", 2, "")
+	// … and it does wait: a submitter that can return without having taken the operation's outcome (a timer arm in a
+	// select) reports failure for an operation the manager still carries out - the registry then holds a key whose
+	// connection believes it never joined
+	R.Rules["E5.round-trip"] = "every function that submits an operation to the session manager returns only after a plain receive of the operation's outcome (not one arm of a select), on every path: what the caller is told is what the registry did"
+	submitHelpers := chanSendHelpers(c.RepoFuncs("service"), "operationFuncChan")
+	isSubmit := func(ins ssa.Instruction) bool {
+		switch x := ins.(type) {
+		case *ssa.Send:
+			_, f, ok := fieldLoad(x.Chan)
+			return ok && f == "operationFuncChan"
+		case *ssa.Call:
+			if sc := x.Call.StaticCallee(); sc != nil {
+				_, isH := submitHelpers[sc]
+				return isH
+			}
+		}
+		return false
+	}
+	var mustReceive func(fn *ssa.Function, depth int) bool
+	mustReceive = func(fn *ssa.Function, depth int) bool {
+		if fn == nil || len(fn.Blocks) == 0 || depth > 2 {
+			return false
+		}
+		barrier := func(b *ssa.BasicBlock, from int) bool {
+			for _, ins := range b.Instrs[from:] {
+				if u, isU := ins.(*ssa.UnOp); isU && u.Op == token.ARROW {
+					return true
+				}
+				if call, isC := ins.(*ssa.Call); isC {
+					if sc := call.Call.StaticCallee(); sc != nil && sc.Pkg == fn.Pkg && sc != fn && mustReceive(sc, depth+1) {
+						return true
+					}
+				}
+			}
+			return false
+		}
+		// from every submission (in helpers: from the entry) to a return
+		seen := map[*ssa.BasicBlock]bool{}
+		var work []*ssa.BasicBlock
+		startIdx := map[*ssa.BasicBlock]int{}
+		if depth == 0 {
+			for _, b := range fn.Blocks {
+				for i, ins := range b.Instrs {
+					if isSubmit(ins) {
+						if _, have := startIdx[b]; !have {
+							startIdx[b] = i + 1
+							work = append(work, b)
+						}
+					}
+				}
+			}
+		} else {
+			work = append(work, fn.Blocks[0])
+			seen[fn.Blocks[0]] = true
+		}
+		for len(work) > 0 {
+			b := work[len(work)-1]
+			work = work[:len(work)-1]
+			from := 0
+			if i, isStart := startIdx[b]; isStart && !seen[b] {
+				from = i
+			}
+			if barrier(b, from) {
+				continue
+			}
+			if _, isR := b.Instrs[len(b.Instrs)-1].(*ssa.Return); isR {
+				return false
+			}
+			for _, sb := range b.Succs {
+				if !seen[sb] {
+					seen[sb] = true
+					work = append(work, sb)
+				}
+			}
+		}
+		return true
+	}
+	nRT := 0
+	for _, fn := range c.RepoFuncs("service") {
+		if fn.Parent() != nil || len(c.opsSentOn(fn, "operationFuncChan")) == 0 {
+			continue
+		}
+		nRT++
+		st, d := report.Discharged, ""
+		if !mustReceive(fn, 0) {
+			st, d = report.Violated, shortFn(fn)+" can return without a plain receive of the outcome of the operation it submitted (a select with another arm, or an early return): the operation is still carried out by the manager after the caller was told otherwise"
+		}
+		R.Add("E5.round-trip", shortFn(fn), c.P.RelPos(fn.Pos()), st, d)
+	}
+	if nRT < 3 {
+		R.Fatal("E5.round-trip: only %d functions submit operations to the session manager (confirmed by hand: join, leave, write)", nRT)
+	}
+	R.Require("E5.round-trip", 3, "")
 }
 
 // managerRunsNoUserCode: the operations executed on the session-manager goroutine are the registry's critical
